@@ -1,16 +1,35 @@
 -------------------------------- MODULE SyncPrims --------------------------------
-(* C13 - Semaphore, Mutex and Condition under the documented locking protocol.
+(* C13 - Semaphore, Mutex (lock / trylock / Lock scope) and Condition (wait / wait(timeout)) under the documented
+   locking protocol.
 
-   Design model (checked exhaustively, with liveness under weak fairness):
-     producers post a semaphore after publishing an item; consumers wait, then take an item.
-     a waiter does  lock; while ~flag do cond.wait; unlock   and a signaller  lock; flag := TRUE; signal; unlock.
-   Properties: a wait never returns without a matching post (count >= 0), no item is lost or taken twice, the mutex
-   is held by at most one thread, and - liveness - every consumer/waiter eventually proceeds (no lost post/signal).
+   Design model (checked exhaustively, with liveness under fairness):
+     producers post a semaphore after publishing an item; consumers wait, then take an item.  Consumers 1..NTimed use
+     the timed / non-blocking forms  while (!sem.wait(timeout)) ...  /  while (!sem.trywait()) ...  : such a call may come
+     back empty-handed, but ONLY while nothing is posted (WaitFail is enabled only when the wait could not be satisfied)
+     and it never consumes a post (Conservation).  A time-out that fires although a post was available for the whole call
+     is a lost post - Trace_SyncPrims.tla decides that on recorded executions with the bounds explained there.
+     a waiter does  lock; while ~flag do cond.wait [or cond.wait(timeout)]; unlock   and a signaller
+     lock; flag := TRUE; signal; unlock.   A timed wait ends by the signal or by its time-out (only while it has not
+     been signalled: the documented result "true" means "there was no signal").  A poller uses  if (trylock()) { look at
+     the flag; unlock }  in a loop: trylock is refused only while the mutex is held.
+     Interrupt: a signal handler runs in a blocked consumer.  It must have no effect on the semaphore; with
+     EintrReturns = TRUE the model shows the wait() that returns on EINTR (sem_wait's result ignored): the consumer
+     proceeds without a post - NoPhantomWake fails (hazard InterruptedSemWait).
+     AtomicWait = FALSE splits cond.wait into "unlock" and "sleep" (the shape of the Win32 branch of Mutex.h:
+     unlock; WaitForSingleObject on a pulsed event): a signal in between is lost and AllWoken fails.  Design-level only,
+     that branch cannot be executed here.
+   Properties: a wait never returns without a matching post, no item is lost or taken twice, posts are conserved, the
+   mutex is held by at most one thread and only its holder is inside a critical section, and - liveness - every
+   consumer / waiter / poller eventually proceeds (no lost post / signal).
    The same state (semaphore count, mutex owner) is what Trace_SyncPrims.tla tracks along recorded executions.  *)
 EXTENDS Naturals, FiniteSets, Sequences, TLC
 
 CONSTANTS NProd, NCons, PerProd,   \* producers, consumers, items per producer (NProd*PerProd = NCons*PerCons)
-          NWait                     \* condition waiters
+          NTimed,                   \* consumers 1..NTimed use wait(timeout) / trywait
+          NWait, NTimedW,           \* condition waiters; waiters 1..NTimedW use wait(timeout)
+          Poller,                   \* BOOLEAN: a trylock poller takes part in the condition protocol
+          AtomicWait,               \* BOOLEAN: cond.wait releases the mutex and starts sleeping atomically (pthread)
+          Interrupts, EintrReturns  \* BOOLEAN: signal handlers interrupt blocked consumers / as-is: wait() then returns
 
 Prods == 1..NProd
 Cons  == 1..NCons
@@ -18,60 +37,108 @@ PerCons == (NProd * PerProd) \div NCons
 Waiters == 1..NWait
 
 VARIABLES sem, queue, ppc, pleft, cpc, cleft, taken,       \* semaphore hand-off
-          owner, flag, wpc, spc, sleeping                    \* condition protocol (owner: 0 free, else thread)
-vars == <<sem, queue, ppc, pleft, cpc, cleft, taken, owner, flag, wpc, spc, sleeping>>
+          posted, returned, cfail, intr,                     \* posts completed, waits returned "acquired", empty-handed / interrupted once
+          owner, flag, wpc, spc, sleeping,                   \* condition protocol (owner: 0 free, else thread)
+          tout,                                              \* how the last wait of a waiter ended: "none", "sig", "to"
+          kpc, kfail                                         \* trylock poller
+svars == <<sem, queue, ppc, pleft, cpc, cleft, taken, posted, returned, cfail, intr>>
+cvars == <<owner, flag, wpc, spc, sleeping, tout, kpc, kfail>>
+vars == <<svars, cvars>>
 
 Init == /\ sem = 0 /\ queue = <<>>
         /\ ppc = [p \in Prods |-> "idle"] /\ pleft = [p \in Prods |-> PerProd]
         /\ cpc = [c \in Cons |-> "idle"] /\ cleft = [c \in Cons |-> PerCons] /\ taken = {}
+        /\ posted = 0 /\ returned = 0 /\ cfail = [c \in Cons |-> FALSE] /\ intr = [c \in Cons |-> FALSE]
         /\ owner = 0 /\ flag = FALSE /\ wpc = [w \in Waiters |-> "start"] /\ spc = "start" /\ sleeping = {}
+        /\ tout = [w \in Waiters |-> "none"]
+        /\ kpc = (IF Poller THEN "try" ELSE "done") /\ kfail = FALSE
 
-(* semaphore hand-off *)
+(* ---- semaphore hand-off ---- *)
 Publish(p) == /\ ppc[p] = "idle" /\ pleft[p] > 0
               /\ queue' = Append(queue, <<p, pleft[p]>>) /\ ppc' = [ppc EXCEPT ![p] = "post"]
-              /\ UNCHANGED <<sem, pleft, cpc, cleft, taken, owner, flag, wpc, spc, sleeping>>
+              /\ UNCHANGED <<sem, pleft, cpc, cleft, taken, posted, returned, cfail, intr, cvars>>
 Post(p) == /\ ppc[p] = "post"
-           /\ sem' = sem + 1 /\ ppc' = [ppc EXCEPT ![p] = "idle"] /\ pleft' = [pleft EXCEPT ![p] = @ - 1]
-           /\ UNCHANGED <<queue, cpc, cleft, taken, owner, flag, wpc, spc, sleeping>>
+           /\ sem' = sem + 1 /\ posted' = posted + 1
+           /\ ppc' = [ppc EXCEPT ![p] = "idle"] /\ pleft' = [pleft EXCEPT ![p] = @ - 1]
+           /\ UNCHANGED <<queue, cpc, cleft, taken, returned, cfail, intr, cvars>>
+\* wait(), wait(timeout) and trywait() all acquire like this
 WaitRet(c) == /\ cpc[c] = "idle" /\ cleft[c] > 0 /\ sem > 0
-              /\ sem' = sem - 1 /\ cpc' = [cpc EXCEPT ![c] = "take"]
-              /\ UNCHANGED <<queue, ppc, pleft, cleft, taken, owner, flag, wpc, spc, sleeping>>
+              /\ sem' = sem - 1 /\ returned' = returned + 1 /\ cpc' = [cpc EXCEPT ![c] = "take"]
+              /\ UNCHANGED <<queue, ppc, pleft, cleft, taken, posted, cfail, intr, cvars>>
+\* wait(timeout) = false / trywait() = false: only while nothing is posted, and nothing is consumed
+WaitFail(c) == /\ c <= NTimed /\ cpc[c] = "idle" /\ cleft[c] > 0 /\ sem = 0 /\ ~cfail[c]
+               /\ cfail' = [cfail EXCEPT ![c] = TRUE]
+               /\ UNCHANGED <<sem, queue, ppc, pleft, cpc, cleft, taken, posted, returned, intr, cvars>>
+\* a signal handler runs in a consumer blocked in wait()
+Interrupt(c) == /\ Interrupts /\ c > NTimed /\ cpc[c] = "idle" /\ cleft[c] > 0 /\ sem = 0 /\ ~intr[c]
+                /\ intr' = [intr EXCEPT ![c] = TRUE]
+                /\ IF EintrReturns THEN cpc' = [cpc EXCEPT ![c] = "take"] ELSE UNCHANGED cpc
+                /\ UNCHANGED <<sem, queue, ppc, pleft, cleft, taken, posted, returned, cfail, cvars>>
 Take(c) == /\ cpc[c] = "take"
            /\ queue # <<>>                      \* guaranteed by the protocol: checked as an invariant below
            /\ taken' = taken \cup {Head(queue)} /\ queue' = Tail(queue)
            /\ cpc' = [cpc EXCEPT ![c] = "idle"] /\ cleft' = [cleft EXCEPT ![c] = @ - 1]
-           /\ UNCHANGED <<sem, ppc, pleft, owner, flag, wpc, spc, sleeping>>
+           /\ UNCHANGED <<sem, ppc, pleft, posted, returned, cfail, intr, cvars>>
 
-(* condition protocol; waiters are threads 1..NWait, the signaller is thread NWait+1 *)
+(* ---- condition protocol; waiters are threads 1..NWait, the signaller is NWait+1, the poller NWait+2 ---- *)
 Sig == NWait + 1
+Pol == NWait + 2
 WLock(w) == /\ wpc[w] = "start" /\ owner = 0 /\ owner' = w /\ wpc' = [wpc EXCEPT ![w] = "test"]
-            /\ UNCHANGED <<sem, queue, ppc, pleft, cpc, cleft, taken, flag, spc, sleeping>>
+            /\ UNCHANGED <<svars, flag, spc, sleeping, tout, kpc, kfail>>
 WTest(w) == /\ wpc[w] = "test" /\ owner = w
             /\ IF flag THEN /\ wpc' = [wpc EXCEPT ![w] = "done"] /\ owner' = 0 /\ UNCHANGED sleeping   \* unlock
-                       ELSE /\ wpc' = [wpc EXCEPT ![w] = "asleep"] /\ owner' = 0 /\ sleeping' = sleeping \cup {w}  \* wait: atomically release + sleep
-            /\ UNCHANGED <<sem, queue, ppc, pleft, cpc, cleft, taken, flag, spc>>
+               ELSE IF AtomicWait
+                    THEN /\ wpc' = [wpc EXCEPT ![w] = "asleep"] /\ owner' = 0 /\ sleeping' = sleeping \cup {w}  \* wait: atomically release + sleep
+                    ELSE /\ wpc' = [wpc EXCEPT ![w] = "unlocked"] /\ owner' = 0 /\ UNCHANGED sleeping
+            /\ UNCHANGED <<svars, flag, spc, tout, kpc, kfail>>
+WSleep(w) == /\ wpc[w] = "unlocked"                                         \* (non-atomic shape only)
+             /\ wpc' = [wpc EXCEPT ![w] = "asleep"] /\ sleeping' = sleeping \cup {w}
+             /\ UNCHANGED <<svars, owner, flag, spc, tout, kpc, kfail>>
+WTimeout(w) == /\ w <= NTimedW /\ wpc[w] = "asleep" /\ w \in sleeping          \* time-out: only while not signalled
+               /\ sleeping' = sleeping \ {w} /\ tout' = [tout EXCEPT ![w] = "to"]
+               /\ UNCHANGED <<svars, owner, flag, wpc, spc, kpc, kfail>>
 WWake(w) == /\ wpc[w] = "asleep" /\ w \notin sleeping /\ owner = 0     \* woken: re-acquire the mutex
             /\ owner' = w /\ wpc' = [wpc EXCEPT ![w] = "test"]
-            /\ UNCHANGED <<sem, queue, ppc, pleft, cpc, cleft, taken, flag, spc, sleeping>>
+            /\ UNCHANGED <<svars, flag, spc, sleeping, tout, kpc, kfail>>
 SLock   == /\ spc = "start" /\ owner = 0 /\ owner' = Sig /\ spc' = "set"
-           /\ UNCHANGED <<sem, queue, ppc, pleft, cpc, cleft, taken, flag, wpc, sleeping>>
+           /\ UNCHANGED <<svars, flag, wpc, sleeping, tout, kpc, kfail>>
 SSet    == /\ spc = "set" /\ flag' = TRUE /\ spc' = "signal"
-           /\ UNCHANGED <<sem, queue, ppc, pleft, cpc, cleft, taken, owner, wpc, sleeping>>
+           /\ UNCHANGED <<svars, owner, wpc, sleeping, tout, kpc, kfail>>
 SSignal == /\ spc = "signal" /\ sleeping' = {} /\ spc' = "unlock"                 \* broadcast
-           /\ UNCHANGED <<sem, queue, ppc, pleft, cpc, cleft, taken, owner, flag, wpc>>
+           /\ tout' = [w \in Waiters |-> IF w \in sleeping THEN "sig" ELSE tout[w]]
+           /\ UNCHANGED <<svars, owner, flag, wpc, kpc, kfail>>
 SUnlock == /\ spc = "unlock" /\ owner' = 0 /\ spc' = "done"
-           /\ UNCHANGED <<sem, queue, ppc, pleft, cpc, cleft, taken, flag, wpc, sleeping>>
+           /\ UNCHANGED <<svars, flag, wpc, sleeping, tout, kpc, kfail>>
+\* trylock poller
+KTryOk   == /\ kpc = "try" /\ owner = 0 /\ owner' = Pol /\ kpc' = "in"
+            /\ UNCHANGED <<svars, flag, wpc, spc, sleeping, tout, kfail>>
+KTryFail == /\ kpc = "try" /\ owner # 0 /\ ~kfail /\ kfail' = TRUE               \* refused only while it is held
+            /\ UNCHANGED <<svars, owner, flag, wpc, spc, sleeping, tout, kpc>>
+KLook    == /\ kpc = "in" /\ owner = Pol
+            /\ kpc' = (IF flag THEN "done" ELSE "try") /\ owner' = 0
+            /\ UNCHANGED <<svars, flag, wpc, spc, sleeping, tout, kfail>>
 
 Next == \/ \E p \in Prods : Publish(p) \/ Post(p)
-        \/ \E c \in Cons : WaitRet(c) \/ Take(c)
-        \/ \E w \in Waiters : WLock(w) \/ WTest(w) \/ WWake(w)
+        \/ \E c \in Cons : WaitRet(c) \/ WaitFail(c) \/ Interrupt(c) \/ Take(c)
+        \/ \E w \in Waiters : WLock(w) \/ WTest(w) \/ WSleep(w) \/ WTimeout(w) \/ WWake(w)
         \/ SLock \/ SSet \/ SSignal \/ SUnlock
+        \/ KTryOk \/ KTryFail \/ KLook
 Spec == Init /\ [][Next]_vars
+\* acquisitions compete (a poller can take the mutex again and again): strong fairness for them, weak for the rest
 FairSpec == Spec /\ WF_vars(Next) /\ \A c \in Cons : WF_vars(WaitRet(c) \/ Take(c))
-                 /\ \A w \in Waiters : WF_vars(WLock(w) \/ WTest(w) \/ WWake(w))
-                 /\ WF_vars(SLock \/ SSet \/ SSignal \/ SUnlock) /\ \A p \in Prods : WF_vars(Publish(p) \/ Post(p))
+                 /\ \A w \in Waiters : SF_vars(WLock(w)) /\ SF_vars(WWake(w)) /\ WF_vars(WTest(w) \/ WSleep(w))
+                 /\ SF_vars(SLock) /\ WF_vars(SSet \/ SSignal \/ SUnlock) /\ \A p \in Prods : WF_vars(Publish(p) \/ Post(p))
+                 /\ SF_vars(KTryOk) /\ WF_vars(KLook)
 
 NoPhantomWake == \A c \in Cons : cpc[c] = "take" => queue # <<>>     \* a returned wait always finds its item
+Conservation == /\ sem + returned = posted                            \* a failed wait consumes nothing, nothing is lost
+                /\ returned = Cardinality(taken) + Cardinality({c \in Cons : cpc[c] = "take"})
+InCS == {w \in Waiters : wpc[w] = "test"} \cup (IF spc \in {"set", "signal", "unlock"} THEN {Sig} ELSE {})
+        \cup (IF kpc = "in" THEN {Pol} ELSE {})
+MutexInv == /\ Cardinality(InCS) <= 1
+            /\ owner = (IF InCS = {} THEN 0 ELSE CHOOSE t \in InCS : TRUE)
+TimeoutOnlyUnsignalled == \A w \in Waiters : tout[w] = "to" => w <= NTimedW
 AllConsumed == <>(\A c \in Cons : cleft[c] = 0)
 AllWoken == <>(\A w \in Waiters : wpc[w] = "done")
+PollerDone == <>(kpc = "done")
 ===============================================================================
